@@ -286,28 +286,44 @@ def filters(ob, tier):
     wit.append(q([ret.guard, r0])[0])
     tq += q.n
     ts += q.secs
-    # (3) find_sticky: a sticky match is returned only if it can be opened
-    fn = mirrun.get_fn("lib", "::find_sticky::{closure#1}")
-    ex = engine.Executor(fn)
-    ev = ex.run()
-    q = Q(ex.ctx)
-    fnames.append(fn.name)
-    nodes += ex.stats["nodes"]
-    ret = [e for e in ev if e.kind == "return"][0]
-    d0 = ret.env["discr(_0)"].term
-    co = [e for e in ev if e.kind == "call" and e.callee.endswith("Backend::can_open")]
-    if len(co) != 1:
-        return {"verdict": "inconclusive", "why": "find_sticky closure shape"}
-    some = "(= %s %s)" % (d0, engine.bv(1, 64))
-    v, _, d = q([ret.guard, some, engine.NOT(co[0].result.term)])
-    if v != "unsat":
-        problems.append("find_sticky returns a sticky backend that cannot be opened (%s)" % v)
-    v, _, d = q([ret.guard, engine.NOT(some), co[0].result.term])
-    if v != "unsat":
-        problems.append("find_sticky drops an openable sticky backend (%s)" % v)
-    wit.append(q([ret.guard, some])[0])
-    tq += q.n
-    ts += q.secs
+    # (3) find_sticky: a sticky match is returned only if it can be opened.  The gate is one
+    # of find_sticky's closures: whichever it is, its "accept" outcome must imply can_open()
+    gate = None
+    idx = mirrun._index["lib"]
+    cl_names = sorted(n for n in idx if re.search(r"::find_sticky::\{closure#\d+\}$", n))
+    seen_calls = []
+    for n in cl_names:
+        s0, e0, _ = idx[n][0]
+        from .. import parse as _parse
+        fn = _parse.load_function(mirrun.dump("lib"), s0, e0)
+        ex = engine.Executor(fn)
+        ev = ex.run()
+        seen_calls += [e.callee.split("::")[-1] for e in ev if e.kind == "call" and re.search(r"Backend::(can_open|is_available)$", e.callee)]
+        co = [e for e in ev if e.kind == "call" and e.callee.endswith("Backend::can_open")]
+        if co:
+            gate = (fn, ex, ev, co)
+    if gate is None:
+        problems.append("find_sticky never asks can_open() of the sticky backend (it uses %s): a backend inside its back-off window is returned" % (sorted(set(seen_calls)) or "no eligibility test"))
+    else:
+        fn, ex, ev, co = gate
+        q = Q(ex.ctx)
+        fnames.append(fn.name)
+        nodes += ex.stats["nodes"]
+        ret = [e for e in ev if e.kind == "return"][0]
+        r0v = ret.env.get("_0")
+        if r0v is not None and r0v.sort == "Bool":
+            accept = r0v.term                     # a `filter` predicate
+        else:
+            accept = "(= %s %s)" % (ret.env["discr(_0)"].term, engine.bv(1, 64))   # and_then -> Some
+        v, _, d = q([ret.guard, accept, engine.NOT(engine.AND(co[0].guard, co[0].result.term))])
+        if v != "unsat":
+            problems.append("find_sticky returns a sticky backend that cannot be opened (%s)" % v)
+        v, _, d = q([ret.guard, engine.NOT(accept), co[0].guard, co[0].result.term])
+        if v != "unsat":
+            problems.append("find_sticky drops an openable sticky backend (%s)" % v)
+        wit.append(q([ret.guard, accept])[0])
+        tq += q.n
+        ts += q.secs
     res = {"paths": nodes, "functions": fnames, "witness": "each filter can accept: %s" % wit, "witness_ok": all(x == "sat" for x in wit)}
     if problems:
         return dict(res, verdict="counterexample", text="; ".join(problems), model={"problems": problems}, queries=tq, solver_s=ts, replay={"reproduced": False, "why": "no native replay"})
@@ -381,3 +397,52 @@ def run(ob, tier):
     if ob["which"] == "cascade":
         return cascade(ob, tier)
     return _run0(ob, tier)
+
+
+def readd(ob, tier):
+    """BackendList::add_backend: re-adding an existing (backend_id, address) updates its role
+    (backup flag), sticky id and load-balancing parameters in place"""
+    fn = mirrun.get_fn("lib", "::add_backend", sig="&mut BackendList, _2: backends::Backend")
+    ex = engine.Executor(fn, loop_bound=lambda f, h: 2)
+    ev = ex.run()
+    q = Q(ex.ctx)
+    res = {"paths": ex.stats["nodes"], "functions": [fn.name]}
+    bf = backend_fields()
+    bi = bf.index("backup")
+    ws = [e for e in ev if e.kind == "write" and re.search(r"\.%d$" % bi, e.place) and getattr(e, "sort", None) == "Bool"]
+    upd = [e for e in ev if e.kind == "call" and re.search(r"clone_from$", e.callee)]
+    push = [e for e in ev if e.kind == "call" and re.search(r"Vec::<.*>::push$", e.callee)]
+    rets = [e for e in ev if e.kind == "return"]
+    if len(rets) != 1 or not push:
+        return dict(res, verdict="inconclusive", why="shape: push=%d returns=%d" % (len(push), len(rets)))
+    problems = []
+    newflag = ex.initial.get("_2.%d" % bi)
+    if not ws:
+        problems.append("re-adding an existing backend never updates its backup flag (the worker keeps routing with the old role)")
+    else:
+        for w in ws:
+            if newflag is None or w.value != newflag.term:
+                v, _, d = q([w.guard, engine.NOT("(= %s %s)" % (w.value, newflag.term if newflag else "false"))])
+                if v != "unsat":
+                    problems.append("the backup flag is not taken from the re-added backend (%s)" % v)
+        # on every returning path: either a fresh push, or the in-place update
+        v, _, d = q([rets[0].guard] + [engine.NOT(p.guard) for p in push] + [engine.NOT(w.guard) for w in ws])
+        if v != "unsat":
+            problems.append("a path neither inserts the backend nor updates its role (%s)" % v)
+    if len(upd) < 2:
+        problems.append("sticky_id / load_balancing_parameters are not both refreshed on re-add (%d clone_from calls)" % len(upd))
+    wit = [q([w.guard])[0] for w in ws] + [q([p.guard])[0] for p in push]
+    res["witness"] = "update-in-place and insert paths reachable: %s" % wit
+    res["witness_ok"] = bool(wit) and all(x == "sat" for x in wit)
+    if problems:
+        return dict(res, verdict="counterexample", text="; ".join(problems), model={"problems": problems}, queries=q.n, solver_s=q.secs, replay={"reproduced": False, "why": "no native replay"})
+    return dict(res, verdict="holds", queries=q.n, solver_s=round(q.secs, 2))
+
+
+_run1 = run
+
+
+def run(ob, tier):
+    if ob["which"] == "readd":
+        return readd(ob, tier)
+    return _run1(ob, tier)
